@@ -392,18 +392,19 @@ func (m *machine) login(c *conn, cr cred, kind string) {
 		return
 	}
 
-	if res.Err != nil {
-		w.transport("LOGIN on "+c.name, res.Err)
-	}
-
 	m.scan(c, res, "LOGIN")
 
-	if res.Bye && cls == clSel {
-		// the selected mailbox went away (deleted by a session of the same user): the server ends the session
+	if res.Bye && (cls == clSel || c.uncertain) {
+		// the selected mailbox went away (deleted by a session of the same user): the server ends the session with
+		// BYE and closes, without a tagged response
 		w.label("bye:selected-mailbox-gone")
 		c.enter(stDead)
 
 		return
+	}
+
+	if res.Err != nil {
+		w.transport("LOGIN on "+c.name, res.Err)
 	}
 
 	if cls != clNotAuth {
@@ -545,15 +546,11 @@ func (m *machine) command(c *conn) {
 		return
 	}
 
-	if res.Err != nil {
-		w.transport(name+" on "+c.name, res.Err)
-	}
-
 	m.scan(c, res, name)
 
-	if res.Bye && name != "LOGOUT" {
+	if res.Bye && (name != "LOGOUT" || res.Err != nil) {
 		// legitimate only for a session whose selected mailbox went away
-		if cls != clSel {
+		if cls != clSel && !c.uncertain {
 			w.fatalf("C18: %s on %s in state %s: the server ended the session: %v", name, c.name, st, res)
 		}
 
@@ -562,6 +559,10 @@ func (m *machine) command(c *conn) {
 		w.dirty[c.user] = true
 
 		return
+	}
+
+	if res.Err != nil {
+		w.transport(name+" on "+c.name, res.Err)
 	}
 
 	refused := func(why string) {
@@ -676,13 +677,13 @@ func (m *machine) allowed(c *conn, name string, p command.Payload, eff bool, res
 			tag := m.tag(c)
 
 			r, _, _ := w.send(c, tag, m.encode(tag, &command.Unselect{}), false)
-			if r.Err != nil {
-				w.transport("UNSELECT on "+c.name, r.Err)
-			}
-
 			if r.Bye {
 				c.enter(stDead)
 				return
+			}
+
+			if r.Err != nil {
+				w.transport("UNSELECT on "+c.name, r.Err)
 			}
 		}
 
